@@ -465,3 +465,644 @@ def alpha_normalise(obj):
             return {k: go(v) for k, v in sorted(x.items())}
         return x
     return go(obj)
+
+
+# --------------------------------------------------------------------------------------------- structured generators
+#
+# Random type-directed expressions rarely contain two equal factors, so the branches of the canonicaliser / of
+# Fraction.simplify that compare sub-expressions are almost never reached by `gen_expr`.  The generators below build
+# expressions from a COMMON POOL of factors: compound fractions whose cross-multiplication yields x/x, x/1, 1/x,
+# products that only appear after canonicalising a factor, factors that tie on the first child name, leaves whose
+# variables share a name across worlds, repeated factors, and Sums over (population-tagged, interventional) joint leaves
+# with every relation between the ranges and the children.
+
+def cfv(name, ivs=(), star="n"):
+    return ["v", name, star, "0", [list(i) for i in sorted(ivs, key=lambda p: (p[0], p[1] == "p"))]]
+
+
+def mk_leaf(children, parents=(), pop=None, ivs=()):
+    c = [cfv(x, ivs) if isinstance(x, int) else x for x in children]
+    p = [cfv(x, ivs) if isinstance(x, int) else x for x in parents]
+    return ["P", c, p] if pop is None else ["PP", plain(pop), c, p]
+
+
+def mk_prod(fs):
+    fs = list(fs)
+    if not fs:
+        return "one"
+    if len(fs) == 1:
+        return fs[0]
+    return ["prod"] + fs
+
+
+def factor_catalogue(rng: random.Random, n_names: int, flavour: str):
+    """a list of pairwise different factors (canonically different as well).
+    flavour 'samefirst': every factor has the same first child name (ties of the old sort key);
+    'mixed': leaves over different names, conditional / joint / interventional / population-tagged, a few sums;
+    'worlds': leaves whose variables share a name across worlds (NOT well-scoped: correspondence and C11 only)"""
+    names = list(range(n_names))
+    rng.shuffle(names)
+    a, b, c = names[0], names[1], names[2]
+    d = names[3] if n_names > 3 else None
+    if flavour == "composite":
+        return sibling_family(rng, n_names)[1]
+    if flavour == "samefirst":
+        # `a` must be the first child in canonical order whatever the ordering: single-child leaves only, or a is the
+        # smallest name among the children (name order == ordering level after _upgrade_ordering)
+        a = min(names[:3])
+        b, c = [n for n in names[:3] if n != a]
+        cat = [mk_leaf([a]), mk_leaf([a], [b]), mk_leaf([a], [c]), mk_leaf([a], [b, c]), mk_leaf([a, b]), mk_leaf([a, c]),
+               mk_leaf([a, b], [c]), mk_leaf([a], ivs=[[b, "m"]]), mk_leaf([a], ivs=[[c, "m"]]), mk_leaf([a], ivs=[[b, "p"]]),
+               mk_leaf([a], [b], ivs=[[c, "m"]]), mk_leaf([a], pop=POPS[0]), mk_leaf([a], pop=POPS[1]),
+               mk_leaf([a], [b], pop=POPS[0]), mk_leaf([cfv(a, star="m")]), mk_leaf([cfv(a, star="m")], [b]),
+               ["sum", [plain(b)], mk_leaf([a], [b])], ["sum", [plain(c)], mk_leaf([a], [c])],
+               ["sum", [plain(b)], mk_leaf([a], [b, c])], ["sum", [plain(b), plain(c)], mk_leaf([a], [b, c])],
+               ["sum", [plain(b)], mk_leaf([a], [b], pop=POPS[0])]]
+    elif flavour == "worlds":
+        cat = [mk_leaf([cfv(a, [[b, "m"]]), cfv(a, [[c, "m"]])]), mk_leaf([cfv(a, [[b, "m"]]), cfv(a)]),
+               mk_leaf([cfv(a, [[b, "p"]]), cfv(a, [[b, "m"]])]), mk_leaf([cfv(a, [[b, "m"]])], [cfv(a, [[c, "m"]])]),
+               mk_leaf([cfv(a, star="p"), cfv(a)]), mk_leaf([cfv(a, [[b, "m"]]), cfv(a, [[b, "m"], [c, "m"]])]),
+               mk_leaf([cfv(a, [[b, "m"]]), cfv(c, [[b, "m"]]), cfv(a, [[c, "m"]])]), mk_leaf([a]), mk_leaf([b], [a]),
+               mk_leaf([cfv(b, [[a, "m"]]), cfv(b, [[a, "p"]])], pop=POPS[0])]
+    else:
+        cat = [mk_leaf([a]), mk_leaf([b]), mk_leaf([c]), mk_leaf([a], [b]), mk_leaf([b], [a]), mk_leaf([b], [c]),
+               mk_leaf([a, b]), mk_leaf([b, c]), mk_leaf([a, b, c]), mk_leaf([a], [b, c]), mk_leaf([a, b], [c]),
+               mk_leaf([a], ivs=[[c, "m"]]), mk_leaf([b], [a], ivs=[[c, "m"]]), mk_leaf([a, b], ivs=[[c, "m"]]),
+               mk_leaf([a], pop=POPS[0]), mk_leaf([a, b], pop=POPS[0]), mk_leaf([b], [a], pop=POPS[1]),
+               mk_leaf([c], pop=POPS[1], ivs=[[a, "m"]]), mk_leaf([cfv(a, star="m"), b]),
+               ["sum", [plain(b)], mk_leaf([a], [b])], ["sum", [plain(a)], mk_prod([mk_leaf([a], [b]), mk_leaf([c], [a])])],
+               ["sum", [plain(c)], ["frac", mk_leaf([a, c]), mk_leaf([c], [b])]]]
+        if d is not None:
+            cat += [mk_leaf([d]), mk_leaf([d], [a]), mk_leaf([a, d], [b]), mk_leaf([c], ivs=[[d, "m"]]),
+                    mk_leaf([d], [c], pop=POPS[0])]
+    rng.shuffle(cat)
+    return cat
+
+
+SIBLING_FAMILIES = ("sum_ranges", "sum_body_prod", "frac_den", "frac_num", "pop", "star", "prod_in_frac", "sum_of_sum",
+                    "iv_star")
+
+
+def sibling_family(rng: random.Random, n_names: int, family=None):
+    """(family, factors): composite factors that agree on everything except ONE deep position (the ranges of a sum, one
+    factor of a product under a sum, the denominator of a fraction, the population, a star ...): any sort key that ignores
+    that position leaves them tied, and the order of the canonical product then depends on the input order"""
+    family = family or rng.choice(SIBLING_FAMILIES)
+    names = list(range(n_names))
+    rng.shuffle(names)
+    a, b, c = names[0], names[1], names[2]
+    d = names[3] if n_names > 3 else c
+    L = [mk_leaf([a], [b]), mk_leaf([a], [c]), mk_leaf([b], [c]), mk_leaf([c], [b]), mk_leaf([a], [b, c]), mk_leaf([b], [a]),
+         mk_leaf([a], [b], pop=POPS[0]), mk_leaf([a], ivs=[[c, "m"]])]
+    if family == "sum_ranges":
+        body = rng.choice([mk_leaf([a], [b, c]), mk_prod([mk_leaf([a], [b]), mk_leaf([b], [c])]),
+                           ["frac", mk_leaf([a, b], [c]), mk_leaf([b], [c])]])
+        rs = [[b], [c], [b, c], [d]] if d not in (b, c) else [[b], [c], [b, c]]
+        fam = [["sum", [plain(n) for n in sorted(r)], body] for r in rs]
+    elif family == "sum_body_prod":
+        r = [plain(n) for n in sorted(rng.sample([b, c], rng.choice([1, 2])))]
+        pairs = rng.sample([(i, j) for i in range(len(L)) for j in range(i)], 4)
+        fam = [["sum", r, ["prod", L[i], L[j]]] for i, j in pairs]
+    elif family == "frac_den":
+        num = rng.choice(L)
+        fam = [["frac", num, x] for x in L if x != num][:4]
+    elif family == "frac_num":
+        den = rng.choice(L)
+        fam = [["frac", x, den] for x in L if x != den][:4]
+    elif family == "pop":
+        c_, p_ = rng.choice([([a], [b]), ([a], []), ([a, b], [c]), ([a, b], [])])
+        fam = [mk_leaf(c_, p_), mk_leaf(c_, p_, pop=POPS[0]), mk_leaf(c_, p_, pop=POPS[1])]
+        fam.append(["sum", [plain(c)], mk_leaf([a], [c], pop=POPS[0])])
+        fam.append(["sum", [plain(c)], mk_leaf([a], [c], pop=POPS[1])])
+    elif family == "star":
+        fam = [mk_leaf([cfv(a, star=s1)], [cfv(b, star=s2)]) for s1 in ("n", "m") for s2 in ("n", "m", "p")]
+    elif family == "prod_in_frac":
+        den = rng.choice(L)
+        pairs = rng.sample([(i, j) for i in range(len(L)) for j in range(i)], 4)
+        fam = [["frac", ["prod", L[i], L[j]], den] for i, j in pairs]
+        if rng.random() < 0.5:
+            fam = [["frac", den, x[1]] for x in fam]
+    elif family == "sum_of_sum":
+        inner = [["sum", [plain(b)], mk_leaf([a], [b, c])], ["sum", [plain(c)], mk_leaf([a], [b, c])]]
+        fam = [["sum", [plain(d)], ["prod", x, mk_leaf([d], [a])]] for x in inner] + inner
+    else:   # iv_star: same leaf, subscripts differing only in the star / in one name
+        fam = [mk_leaf([a], ivs=[[b, "m"]]), mk_leaf([a], ivs=[[b, "p"]]), mk_leaf([a], ivs=[[c, "m"]]),
+               mk_leaf([a], ivs=[[b, "m"], [c, "m"]]), mk_leaf([a], ivs=[[b, "m"], [c, "p"]])]
+    rng.shuffle(fam)
+    return family, fam
+
+
+def _leaf_all_names(t):
+    c, p = _leaf_parts(t)
+    out = set()
+    for v in list(c) + list(p):
+        out.add(int(v[1]))
+        out |= {int(i[0]) for i in v[4]}
+    return out
+
+
+def one_like(rng: random.Random, pool, n_names):
+    """an expression whose canonical form is One()"""
+    k = rng.randrange(7)
+    x = rng.choice(pool)
+    if k == 0:
+        return "one"
+    if k == 1:
+        n = rng.randrange(n_names)
+        return ["sum", [plain(n)], mk_leaf([n])]
+    if k == 2 and n_names >= 2:
+        n, m = rng.sample(range(n_names), 2)
+        return ["sum", [plain(n), plain(m)], mk_leaf([m, n], pop=rng.choice([None, POPS[0]]))]
+    if k == 3:
+        return ["frac", x, present_shuffle(rng, x)]
+    if k == 4:
+        y = rng.choice(pool)
+        return ["frac", ["prod", x, y], ["prod", y, x]]
+    if k == 5:
+        return ["prod", "one", "one"]
+    return ["frac", "one", "one"]
+
+
+def disguise(rng: random.Random, x, pool, n_names, p=0.5):
+    """an expression with the same canonical form as the factor `x` (a leaf or a sum)"""
+    if rng.random() > p:
+        return present_shuffle(rng, x)
+    k = rng.randrange(4)
+    if k == 0:
+        return ["frac", present_shuffle(rng, x), one_like(rng, pool, n_names)]
+    if k == 1:
+        fs = [present_shuffle(rng, x), one_like(rng, pool, n_names)]
+        rng.shuffle(fs)
+        return ["prod"] + fs
+    if k == 2 and isinstance(x, list) and x[0] in ("P", "PP") and not _leaf_parts(x)[1] and leaf_ok(x):
+        # marginalise a fresh variable out of a bigger joint: Sum[Z] P(C, Z) -> P(C)   (subset branch of Sum.simplify)
+        fresh = [n for n in range(n_names) if n not in _leaf_all_names(x)]
+        if fresh:
+            z = rng.choice(fresh)
+            ivs = _leaf_parts(x)[0][0][4]
+            ch = list(_leaf_parts(x)[0]) + [cfv(z, ivs)]
+            rng.shuffle(ch)
+            big = ["P", ch, []] if x[0] == "P" else ["PP", x[1], ch, []]
+            return ["sum", [plain(z)], big]
+    return present_shuffle(rng, x)
+
+
+def _split(rng, xs):
+    a, b = [], []
+    for x in xs:
+        (a if rng.random() < 0.5 else b).append(x)
+    return a, b
+
+
+def present_ratio(rng: random.Random, num, den, depth, pool, n_names, p_disguise=0.3):
+    """an expression denoting prod(num)/prod(den) whose canonicalisation cross-multiplies (through `/` on fractions)
+    to the factor multisets (num, den) exactly - no cancellation happens in canonicalize except x/x and x/1"""
+    num, den = list(num), list(den)
+    rng.shuffle(num)
+    rng.shuffle(den)
+
+    def side(fs):
+        fs = [disguise(rng, f, pool, n_names, p_disguise) for f in fs]
+        return mk_prod(_nest(rng, fs))
+
+    if depth <= 0 or len(num) + len(den) <= 1 or rng.random() < 0.2:
+        if not den and rng.random() < 0.5:
+            return side(num)
+        return ["frac", side(num), side(den)]
+    n1, n2 = _split(rng, num)
+    d1, d2 = _split(rng, den)
+    top = present_ratio(rng, n1, d1, depth - 1, pool, n_names, p_disguise)
+    bot = present_ratio(rng, d2, n2, depth - 1, pool, n_names, p_disguise)
+    if bot == "zero":
+        bot = "one"
+    return ["frac", top, bot]
+
+
+RATIO_TARGETS = ("xx", "xx", "xx", "x1", "1x", "shared", "repeat", "general")
+
+
+def _ratio_parts(rng: random.Random, n_names=4, flavour=None, target=None):
+    flavour = flavour or rng.choice(["mixed", "mixed", "samefirst", "worlds", "composite"])
+    target = target or rng.choice(RATIO_TARGETS)
+    pool = factor_catalogue(rng, n_names, flavour)[: rng.choice([2, 3, 3, 4])]
+    pick = lambda k: [rng.choice(pool) for _ in range(k)]  # noqa: E731
+    if target == "xx":
+        num = pick(rng.choice([1, 2, 2, 3, 4]))
+        den = list(num)
+    elif target == "x1":
+        num, den = pick(rng.choice([1, 2, 3])), []
+    elif target == "1x":
+        num, den = [], pick(rng.choice([1, 2, 3]))
+    elif target == "shared":
+        sh = pick(rng.choice([1, 2]))
+        num, den = sh + pick(rng.choice([0, 1, 2])), sh + pick(rng.choice([0, 1, 2]))
+    elif target == "repeat":
+        x = rng.choice(pool)
+        num = [x] * rng.choice([1, 2, 3]) + pick(rng.choice([0, 1]))
+        den = [x] * rng.choice([0, 1, 2]) + pick(rng.choice([0, 1, 2]))
+    else:
+        num, den = pick(rng.choice([1, 2, 3])), pick(rng.choice([1, 2, 3]))
+    return pool, num, den, f"ratio:{target}:{flavour}"
+
+
+def struct_ratio(rng: random.Random, n_names=4, flavour=None, target=None):
+    """(expression, label): a compound fraction over a common pool of factors.
+    target xx: numerator and denominator multisets equal (collapses to One, directly or only after the division);
+    x1 / 1x: the denominator / numerator multiset is empty; shared: common factors that canonicalize must NOT cancel;
+    repeat: a factor occurs several times; general: independent multisets"""
+    pool, num, den, label = _ratio_parts(rng, n_names, flavour, target)
+    e = present_ratio(rng, num, den, rng.choice([1, 1, 2, 2, 3]), pool, n_names)
+    return e, label
+
+
+def struct_ratio_pair(rng: random.Random, n_names=4):
+    """(a, b, label): two independent presentations of the same ratio of factor multisets (semantically equal; usually
+    canonically equal as well)"""
+    pool, num, den, label = _ratio_parts(rng, n_names)
+    a = present_ratio(rng, num, den, rng.choice([0, 1, 2]), pool, n_names)
+    b = present_ratio(rng, num, den, rng.choice([0, 1, 2]), pool, n_names)
+    return a, b, label
+
+
+def struct_product(rng: random.Random, n_names=4, flavour=None, family=None):
+    """(expression, label): products whose factors tie on the first child name, contain One-like factors, and factors that
+    become products only after canonicalisation ((x*y)/1, Sum over a one-like ...)"""
+    flavour = flavour or rng.choice(["samefirst", "samefirst", "mixed", "worlds", "composite", "composite"])
+    if flavour == "composite" or family is not None:
+        fam, pool = sibling_family(rng, n_names, family)
+        flavour = "composite-" + fam
+    else:
+        pool = factor_catalogue(rng, n_names, flavour)[: rng.choice([3, 4, 5, 6])]
+    fs = []
+    for _ in range(rng.choice([2, 3, 3, 4, 5])):
+        k = rng.random()
+        if k < 0.55:
+            fs.append(disguise(rng, rng.choice(pool), pool, n_names, 0.3))
+        elif k < 0.8:      # a product hidden in a fraction over a one-like denominator
+            inner = [disguise(rng, rng.choice(pool), pool, n_names, 0.2) for _ in range(rng.choice([2, 2, 3]))]
+            fs.append(["frac", ["prod"] + inner, one_like(rng, pool, n_names)])
+        elif k < 0.9:
+            fs.append(one_like(rng, pool, n_names))
+        else:
+            fs.append(["frac", rng.choice(pool), rng.choice(pool)])
+    if len(fs) < 2:
+        fs.append(rng.choice(pool))
+    e = ["prod"] + _nest(rng, fs)
+    w = rng.random()
+    if w < 0.15:
+        e = ["sum", [plain(rng.randrange(n_names))], e]
+    elif w < 0.3:
+        e = ["frac", e, rng.choice(pool)]
+    return e, f"product:{flavour}"
+
+
+SUM_MODES = ("equal", "superset", "subset", "partial", "miss")
+
+
+def struct_sum_leaf(rng: random.Random, n_names=4, mode=None, pop=None, wrap=None):
+    """(expression, label): Sum over a parent-less joint leaf (plain / interventional / population-tagged / starred) with
+    the given relation between ranges and children; optionally the leaf only appears after canonicalising the summand,
+    optionally wrapped in a product / fraction / outer sum"""
+    mode = mode or rng.choice(SUM_MODES)
+    names = list(range(n_names))
+    rng.shuffle(names)
+    k = rng.choice([1, 2, 2, 3]) if n_names >= 4 else rng.choice([1, 2])
+    if mode in ("subset", "partial"):
+        k = max(k, 2)
+    k = min(k, n_names - 1)
+    ch, others = names[:k], names[k:]
+    ivs = []
+    if len(others) >= 2 and rng.random() < 0.3:
+        ivs = [[others.pop(), rng.choice(["m", "m", "p"])]]
+    if pop is None:
+        pop = rng.choice([None, POPS[0], POPS[1]])
+    elif pop is False:
+        pop = None
+    children = [cfv(n, ivs, "m" if rng.random() < 0.1 else "n") for n in ch]
+    rng.shuffle(children)
+    leaf = mk_leaf(children, pop=pop)
+    if mode == "equal":
+        r = list(ch)
+    elif mode == "superset":
+        r = list(ch) + rng.sample(others, rng.randint(1, min(2, len(others))))
+    elif mode == "subset":
+        r = rng.sample(ch, rng.randint(1, len(ch) - 1))
+    elif mode == "partial":
+        r = rng.sample(ch, rng.randint(1, len(ch) - 1)) + rng.sample(others, rng.randint(1, min(2, len(others))))
+    else:
+        r = rng.sample(others, rng.randint(1, min(2, len(others))))
+    body = leaf
+    h = rng.random()
+    if h < 0.15:
+        body = ["frac", leaf, "one"]
+    elif h < 0.3:
+        body = ["prod", "one", leaf]
+    elif h < 0.4 and others:      # the leaf itself is the result of an inner marginalisation
+        z = [n for n in others if n not in r]
+        if z:
+            big = list(children) + [cfv(z[0], ivs)]
+            rng.shuffle(big)
+            body = ["sum", [plain(z[0])], mk_leaf(big, pop=pop)]
+    e = ["sum", [plain(n) for n in sorted(set(r))], body]
+    wrap = wrap or rng.choice(["none", "none", "prod", "num", "den", "sum", "both"])
+    other = mk_leaf([names[-1]], pop=rng.choice([None, pop]))
+    if wrap == "prod":
+        e = ["prod", other, e]
+    elif wrap == "num":
+        e = ["frac", e, other]
+    elif wrap == "den" and mode != "equal":
+        e = ["frac", other, e]
+    elif wrap == "sum":
+        e = ["sum", [plain(rng.choice(names))], ["prod", e, other]]
+    elif wrap == "both":
+        e2, _ = struct_sum_leaf(rng, n_names, wrap="none")
+        e = ["frac", e, e2]
+    return e, f"sumleaf:{mode}:{'PP' if pop else 'P'}"
+
+
+def struct_expr(rng: random.Random, n_names=4):
+    """one structured expression with its label"""
+    k = rng.random()
+    if k < 0.5:
+        return struct_ratio(rng, n_names)
+    if k < 0.75:
+        return struct_product(rng, n_names)
+    return struct_sum_leaf(rng, n_names)
+
+
+# --------------------------------------------------------------------------------------------- feature detection
+
+def features(enc, ordering=None, limit=40):
+    """Which comparison branches of the REAL canonicaliser does `enc` reach?  Walks the raw expression, canonicalises
+    the sub-terms with the real code and reports a set of feature names (used as generator-distribution tags):
+
+      frac:den_one / frac:equal_direct     the first checks of the Fraction branch fire
+      frac:cross_xx / cross_x1 / cross_1x  numerator and denominator differ as objects, at least one is a Fraction, and
+                                           the division cross-multiplies into x/x, x/One, One/x
+      frac:cross_other / frac:plain        compound / simple fraction that stays
+      frac:shared_factor                   canonical numerator and denominator have a factor in common (must not cancel)
+      prod:nested_raw                      a product directly inside a product
+      prod:nested_after_canon              a non-product factor whose canonical form is a product
+      prod:first_child_tie                 two canonical factors with the same class rank and first child name
+      prod:repeated_factor                 two equal canonical factors
+      prod:one_factor / prod:zero_factor   a factor canonicalising to One / Zero
+      leaf:shared_name                     a leaf with two variables of the same name (several worlds / stars)
+      sum:<mode>:<P|PP>[:iv]               Sum whose canonical summand is a parent-less leaf: relation ranges/children
+      sum:of_one                           the summand canonicalises to One
+    """
+    from y0.dsl import Fraction, One, PopulationProbability, Probability, Product, Sum, Zero
+    from y0.mutate.canonicalize_expr import Canonicalizer
+
+    from . import enc_expr as X
+    from y0.dsl import ensure_ordering
+
+    out = set()
+    try:
+        e = X.dec_expr(enc)
+        o = ensure_ordering(e, ordering=None if ordering is None else [X.dec_var(v) for v in ordering])
+        cz = Canonicalizer(o)
+    except Exception:
+        return out
+    budget = [limit]
+
+    def canon(x):
+        try:
+            return cz.canonicalize(x)
+        except Exception:
+            return None
+
+    def first_key(c):
+        if isinstance(c, Probability):
+            return ("P", c.children[0].name)
+        if isinstance(c, Sum):
+            k = first_key(c.expression)
+            return None if k is None else ("S",) + k
+        return None
+
+    def factors(c):
+        return list(c.expressions) if isinstance(c, Product) else [c]
+
+    def walk(x):
+        if budget[0] <= 0:
+            return
+        budget[0] -= 1
+        if isinstance(x, Probability):
+            names = [v.name for v in x.children + x.parents]
+            if len(set(names)) < len(names):
+                out.add("leaf:shared_name")
+        elif isinstance(x, Product):
+            cs = []
+            for f in x.expressions:
+                walk(f)
+                if isinstance(f, Product):
+                    out.add("prod:nested_raw")
+                    continue
+                c = canon(f)
+                if c is None:
+                    continue
+                if isinstance(c, Product):
+                    out.add("prod:nested_after_canon")
+                if isinstance(c, One):
+                    out.add("prod:one_factor")
+                if isinstance(c, Zero):
+                    out.add("prod:zero_factor")
+            c = canon(x)
+            if isinstance(c, Product):
+                cs = list(c.expressions)
+                keys = [first_key(f) for f in cs]
+                keys = [k for k in keys if k is not None]
+                if len(set(keys)) < len(keys):
+                    out.add("prod:first_child_tie")
+                if any(cs[i] == cs[j] for i in range(len(cs)) for j in range(i)):
+                    out.add("prod:repeated_factor")
+        elif isinstance(x, Sum):
+            walk(x.expression)
+            c = canon(x.expression)
+            if isinstance(c, One):
+                out.add("sum:of_one")
+            if isinstance(c, Probability) and not c.parents:
+                ch = {v.get_base() for v in c.children}
+                r = set(x.ranges)
+                mode = ("equal" if r == ch else "superset" if r > ch else "subset" if r < ch else
+                        "partial" if r & ch else "miss")
+                tag = f"sum:{mode}:{'PP' if isinstance(c, PopulationProbability) else 'P'}"
+                out.add(tag)
+                if any(getattr(v, "interventions", None) for v in c.children):
+                    out.add(tag + ":iv")
+        elif isinstance(x, Fraction):
+            walk(x.numerator)
+            walk(x.denominator)
+            n, d = canon(x.numerator), canon(x.denominator)
+            if n is None or d is None:
+                return
+            if isinstance(d, One):
+                out.add("frac:den_one")
+            elif n == d:
+                out.add("frac:equal_direct")
+            else:
+                try:
+                    rv = n / d
+                except Exception:
+                    return
+                compound = isinstance(n, Fraction) or isinstance(d, Fraction)
+                if isinstance(rv, Fraction) and compound and isinstance(rv.denominator, One):
+                    out.add("frac:cross_x1")
+                elif isinstance(rv, Fraction) and compound and rv.numerator == rv.denominator:
+                    out.add("frac:cross_xx")
+                elif isinstance(rv, Fraction) and compound and isinstance(rv.numerator, One):
+                    out.add("frac:cross_1x")
+                elif compound:
+                    out.add("frac:cross_other")
+                else:
+                    out.add("frac:plain")
+                if isinstance(rv, Fraction):
+                    fn, fd = factors(rv.numerator), factors(rv.denominator)
+                    if any(a == b for a in fn for b in fd) and rv.numerator != rv.denominator:
+                        out.add("frac:shared_factor")
+
+    walk(e)
+    return out
+
+
+# --------------------------------------------------------------------------------------------- structured: operators
+
+EXPR_CLASSES = ("P", "PP", "prod", "sum", "frac", "one", "zero", "Q")
+
+
+def class_instance(rng: random.Random, cls: str, pool, n_names: int):
+    """a raw expression whose Python class is `cls`, built from the common factor pool"""
+    leaves = [x for x in pool if isinstance(x, list) and x[0] == "P"] or [mk_leaf([0])]
+    pleaves = [x for x in pool if isinstance(x, list) and x[0] == "PP"] or [mk_leaf([0], pop=POPS[0])]
+    if cls == "P":
+        return rng.choice(leaves)
+    if cls == "PP":
+        return rng.choice(pleaves)
+    if cls == "one":
+        return "one"
+    if cls == "zero":
+        return "zero"
+    if cls == "Q":
+        ns = list(range(n_names))
+        rng.shuffle(ns)
+        k = rng.randint(1, n_names - 1)
+        return ["Q", [plain(n) for n in sorted(ns[:k])], [plain(n) for n in sorted(ns[k:])]]
+    if cls == "prod":
+        fs = [rng.choice(pool) for _ in range(rng.choice([2, 2, 3]))]
+        if rng.random() < 0.25:
+            fs.append(rng.choice(["one", ["frac", rng.choice(pool), rng.choice(pool)]]))
+        rng.shuffle(fs)
+        return ["prod"] + _nest(rng, fs)
+    if cls == "sum":
+        body = rng.choice([rng.choice(pool), mk_prod([rng.choice(pool), rng.choice(pool)]),
+                           ["frac", rng.choice(pool), rng.choice(pool)]])
+        r = sorted(rng.sample(range(n_names), rng.choice([1, 1, 2])))
+        return ["sum", [plain(n) for n in r], body]
+    if cls == "frac":
+        k = rng.random()
+        side = lambda: mk_prod([rng.choice(pool) for _ in range(rng.choice([1, 1, 2]))])  # noqa: E731
+        if k < 0.15:
+            return ["frac", "one", side()]
+        if k < 0.25:
+            return ["frac", side(), "one"]
+        if k < 0.35:
+            return ["frac", side(), ["frac", side(), side()]]
+        return ["frac", side(), side()]
+    raise ValueError(cls)
+
+
+def struct_simplify_fraction(rng: random.Random, n_names=4):
+    """(raw Fraction, label) for Fraction.simplify(): numerator and denominator factor lists with designed multiplicities
+    of common factors (more often in the numerator, more often in the denominator, equally often, disjoint), single
+    factors vs products on either side, One numerators over fractions"""
+    flavour = rng.choice(["mixed", "mixed", "samefirst"])
+    pool = factor_catalogue(rng, n_names, flavour)[: rng.choice([2, 3, 4])]
+    k = rng.random()
+    if k < 0.1:
+        inner, _ = struct_simplify_fraction(rng, n_names)
+        return ["frac", "one", inner], "simplify:one_over_frac"
+    if k < 0.15:
+        return ["frac", "zero", mk_prod([rng.choice(pool)])], "simplify:zero_num"
+    pats = [(2, 1), (1, 2), (1, 1), (2, 2), (3, 1), (1, 3), (3, 2), (1, 0), (0, 1), (2, 0), (0, 2), (0, 0)]
+    num, den = [], []
+    for x in pool:
+        a, b = rng.choice(pats)
+        num += [x] * a
+        den += [x] * b
+    if not num and not den:
+        num, den = [pool[0]], [pool[0]]
+    rng.shuffle(num)
+    rng.shuffle(den)
+    d = mk_prod(den)
+    return ["frac", mk_prod(num), d], "simplify:multiset"
+
+
+def simplify_profile(enc):
+    """multiplicity patterns of common factors in a raw fraction num/den (factor lists of top-level products):
+    subset of {num>den>0, den>num>0, eq1, eq>1, num_only, den_only, single_num, single_den}"""
+    out = set()
+    if not (isinstance(enc, list) and enc[0] == "frac"):
+        return out
+    fl = lambda x: list(x[1:]) if isinstance(x, list) and x[0] == "prod" else [x]  # noqa: E731
+    n, d = fl(enc[1]), fl(enc[2])
+    if len(n) == 1:
+        out.add("single_num")
+    if len(d) == 1:
+        out.add("single_den")
+    import json as _j
+    key = lambda x: _j.dumps(x, sort_keys=True)  # noqa: E731
+    cn, cd = {}, {}
+    for x in n:
+        cn[key(x)] = cn.get(key(x), 0) + 1
+    for x in d:
+        cd[key(x)] = cd.get(key(x), 0) + 1
+    for k in set(cn) | set(cd):
+        a, b = cn.get(k, 0), cd.get(k, 0)
+        if a > b > 0:
+            out.add("num>den>0")
+        elif b > a > 0:
+            out.add("den>num>0")
+        elif a == b == 1:
+            out.add("eq1")
+        elif a == b and a > 1:
+            out.add("eq>1")
+        elif b == 0:
+            out.add("num_only")
+        else:
+            out.add("den_only")
+    return out
+
+
+def struct_ranges(rng: random.Random, e, n_names):
+    """range arguments for marginalize / conditional / normalize_marginalize chosen relative to the expression: free
+    event names, names bound by a Sum of the expression, intervention subscripts, fresh names; plain / starred /
+    counterfactual variables"""
+    ev = sorted(event_names(e))
+    bound = sorted(range_names(e))
+    subs = sorted({int(i[0]) for v in event_vars(e) for i in v[4]})
+    fresh = [n for n in range(n_names) if n not in all_names(e)]
+    mode = rng.choice(["free", "free", "all_free", "none", "bound", "subs", "fresh", "mixed"])
+    if mode == "free" and ev:
+        r = rng.sample(ev, rng.randint(1, len(ev)))
+    elif mode == "all_free":
+        r = list(ev)
+    elif mode == "none":
+        r = []
+    elif mode == "bound" and bound:
+        r = rng.sample(bound, rng.randint(1, len(bound))) + [n for n in ev if rng.random() < 0.3]
+    elif mode == "subs" and subs:
+        r = rng.sample(subs, 1) + [n for n in ev if rng.random() < 0.3]
+    elif mode == "fresh" and fresh:
+        r = rng.sample(fresh, 1) + [n for n in ev if rng.random() < 0.3]
+    else:
+        r = [n for n in range(n_names) if rng.random() < 0.4]
+    out = []
+    for n in sorted(set(r)):
+        k = rng.random()
+        if k < 0.8:
+            out.append(plain(n))
+        elif k < 0.9:
+            out.append(["v", n, rng.choice(["m", "p"]), "0", []])
+        else:
+            others = [m for m in range(n_names) if m != n]
+            out.append(cfv(n, [[rng.choice(others), "m"]]) if others else plain(n))
+    return out, mode
